@@ -472,9 +472,9 @@ Section WarcProofs.
       rewrite Er2 at 2. rewrite skipn_app. rewrite skipn_all2 by lia. rewrite app_nil_l.
       replace (length r - 4 - length X)%nat with 0%nat by lia.
       apply list_eqb_refl. }
-    destruct (Z.of_nat (length r) <? Z.of_nat (length out2)) eqn:Elt.
-    - (* the whole record and more is already in the buffer *)
-      assert (Hle : (length r <= length out2)%nat) by lia.
+    destruct (overhang_test (Z.of_nat (length r)) (Z.of_nat (length out2))) eqn:Elt.
+    - (* the whole record (and possibly more) is already in the buffer *)
+      assert (Hle : (length r <= length out2)%nat) by (unfold overhang_test in Elt; destruct warc_overhang_le; lia).
       destruct (app_split_nat _ _ _ _ (eq_sym HS2') Hle) as [t [Ho Hr]].
       rewrite Nat2Z.id.
       assert (Hfr : firstn (length r) out2 = r).
@@ -484,6 +484,7 @@ Section WarcProofs.
       rewrite Ho. rewrite skipn_app, skipn_all, Nat.sub_diag. simpl. symmetry. exact Hr.
     - assert (Hal : (Z.of_nat (length r) >=? alloc_limit) = false) by lia.
       rewrite Hal.
+      assert (Hge : (length out2 <= length r)%nat) by (unfold overhang_test in Elt; destruct warc_overhang_le; lia).
       destruct (read_exact_ok fuel rs2 out2 r rest Hi2 HS2') as [rs3 [HX [Hr3 Hi3]]]; [lia| |].
       { rewrite app_length in Hf. lia. }
       rewrite HX. rewrite Htrail.
@@ -643,12 +644,13 @@ Section WarcProofs.
     destruct (header_loop fuel fuel rs1 out1 c line false 0) as [rs2 out2 c2 len|e]; auto.
     destruct HH as [HH1 HH2].
     set (total := (Z.of_nat c2 + len mod size_max + Z.of_N warc_trailer_len) mod size_max).
-    destruct (total <? Z.of_nat (length out2)) eqn:Elt.
+    destruct (overhang_test total (Z.of_nat (length out2))) eqn:Elt.
     - destruct (list_eqb (skipn (length (firstn (Z.to_nat total) out2) - N.to_nat warc_trailer_len) (firstn (Z.to_nat total) out2)) warc_trailer) eqn:Et; [|exact I].
       split; [|split; [exact HH2|apply trailer_check; exact Et]].
       rewrite app_assoc, firstn_skipn. rewrite HH1. exact HL1.
     - destruct (total >=? alloc_limit); [exact I|].
-      pose proof (read_exact_conserve fuel rs2 out2 total HH2 ltac:(lia)) as HX.
+      assert (Hge : Z.of_nat (length out2) <= total) by (unfold overhang_test in Elt; destruct warc_overhang_le; lia).
+      pose proof (read_exact_conserve fuel rs2 out2 total HH2 Hge) as HX.
       destruct (read_exact fuel rs2 out2 total) as [[rec rs3]|e]; auto.
       destruct HX as [HX1 HX2].
       destruct (list_eqb (skipn (length rec - N.to_nat warc_trailer_len) rec) warc_trailer) eqn:Et; [|exact I].
